@@ -254,7 +254,11 @@ impl PayloadWriter {
         //
         // If the minimum payload length exceeds the maximum payload length, we can't write the metric at all, so we
         // return an error.
-        let minimum_payload_len = key.name().len() + self.trailer_buf.len() + 2;
+        //
+        // The prefix, when present, is written in front of the name along with a separator, so it counts as well.
+        let prefix_len = prefix.map_or(0, |prefix| prefix.len() + 1);
+        let minimum_payload_len = prefix_len + key.name().len() + self.trailer_buf.len() + 2;
+
         if minimum_payload_len + 2 > self.max_payload_len {
             // The extra two we add above simulates the smallest possible value string, which would be `:0`.
             return WriteResult::failure(values.len() as u64);
